@@ -63,6 +63,17 @@ def make_pool():
         9: ((Y[0:15], Y[15:30]), {}),
         10: ((Y[0:15], Y[15:30]), {}),
     }
+    # 11 / 12: doubles whose bytes are finite, ordinary numbers in both byte
+    # orders (sign/exponent bytes at both ends), native and swapped view
+    raw = rs.randint(0, 256, size=(30, 8)).astype(np.uint8)
+    raw[:, 0] = 0x3F
+    raw[:, 1] = 0xE0 | (raw[:, 1] & 0x0F)
+    raw[:, 7] = 0x3F
+    raw[:, 6] = 0xD0 | (raw[:, 6] & 0x0F)
+    B = raw.reshape(-1).view("<f8")
+    S = raw.reshape(-1).view(">f8")
+    pool[11] = ((B[0:15], B[15:30]), {})
+    pool[12] = ((S[0:15], S[15:30]), {})
     return pool
 
 
@@ -522,6 +533,15 @@ def main(tier, seed, replay=None):
     ev.add_tlc("MC_Cache schedule enumeration depth 3", res)
     scheds = sorted({tuple((s["f"], s["p"]) for s in h)
                      for h in res.iter_tagged("H", consume=True)})
+    res_b = tlc.run("MC_Cache", HIST + BASE.format(
+        m=2, kt="TRUE", al="FALSE", d=3).replace(
+            "Funcs <- MCFuncs", "Funcs <- HFuncs").replace(
+            "Pool <- MCPool", "Pool <- HPool2"), workers=8, timeout=3000)
+    ev.add_tlc("MC_Cache schedule enumeration depth 3 (byte-order pair)",
+               res_b)
+    scheds_b = sorted({tuple((s["f"], s["p"]) for s in h)
+                       for h in res_b.iter_tagged("H", consume=True)}
+                      - set(scheds))
     if tier != "quick":
         res4 = enum(4)
         ev.add_tlc("MC_Cache schedule enumeration depth 4", res4)
@@ -532,7 +552,7 @@ def main(tier, seed, replay=None):
                 deep.add(sc)
         scheds += sorted(deep)
         ev.extra["depth4_schedules_kept"] = "1/24 (%d)" % len(deep)
-    jobs = [(m, sched) for sched in scheds for m in (2, 3)]
+    jobs = [(m, sched) for sched in scheds + scheds_b for m in (2, 3)]
     for case, viol in par.pmap(_replay, jobs, chunk=200):
         ev.traces += 1
         fs = [s[0] for s in case["schedule"]]
